@@ -55,6 +55,7 @@ class Checker(CommandMixin):
         self.started_wall = None
         self.quiesced_at = None
         self.epoch = 0          # bumps at every sweep / restart (C02 non-triviality)
+        self.lost_np = {}       # (app, name) -> mailbox of a nameplate a sweep removed against the rules
         if initial is not None:
             self._seed(initial)
 
@@ -422,6 +423,11 @@ class Checker(CommandMixin):
                     self.v("C12", "active-mailbox-survives", ev,
                            "sweep at %.3f deleted mailbox %r whose last activity was at %.3f (%.3f s earlier)"
                            % (now, k, act, now - act))
+                if self.viol and self.viol[-1]["prop"] == "C12" and self.viol[-1]["event"] == ev.idx:
+                    # removed although it was alive by the rules: as far as C03 is concerned the
+                    # nameplate still lives and still leads to this mailbox
+                    for n in pre_np_by_mb.get(k, []):
+                        self.lost_np[(n.app, n.name)] = n.mailbox
                 for n in pre_np_by_mb.get(k, []):
                     if (n.app, n.name) in post_np and post_np[(n.app, n.name)].mailbox == m.id:
                         self.v("C13", "swept-completely", ev, "nameplate %r survives its swept mailbox" % n.name)
